@@ -3,6 +3,7 @@ package main
 import (
 	"fmt"
 	"go/ast"
+	"go/token"
 	"go/types"
 	"strings"
 )
@@ -13,7 +14,7 @@ func ruleL4(c *Ctx, owners map[string]bool, floor int) {
 	R := c.R
 	p := c.P
 	la := c.Locks()
-	R.Rule("L4", "every function (and iterator closure) that touches the guarded state of Queue/Deque releases the mutex only through defer: the operation is a single critical section, so no other operation can interleave between its reads, its decision to wait and its writes", floor)
+	R.Rule("L4", "every function (and iterator closure) that touches the guarded state of Queue/Deque is a single critical section: no unlock that is followed, on some path of the same function, by another acquisition — so no other operation can interleave between its reads, its decision to wait and its writes", floor)
 	touched := map[*Func]bool{}
 	for _, a := range la.accesses {
 		owner := a.Field.Pkg + "." + a.Field.Type
@@ -24,6 +25,24 @@ func ruleL4(c *Ctx, owners map[string]bool, floor int) {
 	for f := range touched {
 		info := f.Info()
 		bad := ""
+		fl := newFlow(f)
+		isAcquire := func(n ast.Node) bool {
+			hit := false
+			walkNoLit(n, func(y ast.Node) bool {
+				if c2, ok := y.(*ast.CallExpr); ok {
+					if fn := calleeFunc(info, c2); fn != nil {
+						if _, isL := lockFuncs[fname(fn)]; isL {
+							hit = true
+						}
+						if _, isA := la.acquireW[fn]; isA {
+							hit = true
+						}
+					}
+				}
+				return !hit
+			})
+			return hit
+		}
 		walkNoLit(f.Body, func(x ast.Node) bool {
 			call, ok := x.(*ast.CallExpr)
 			if !ok {
@@ -34,14 +53,24 @@ func ruleL4(c *Ctx, owners map[string]bool, floor int) {
 				return true
 			}
 			_, isRelW := la.releaseW[fn]
-			if unlockFuncs[fname(fn)] || isRelW {
-				if _, isDefer := p.Parent(call).(*ast.DeferStmt); !isDefer {
-					bad = p.Position(call.Pos())
+			if !unlockFuncs[fname(fn)] && !isRelW {
+				return true
+			}
+			if _, isDefer := p.Parent(call).(*ast.DeferStmt); isDefer {
+				return true
+			}
+			// an explicit unlock that is followed, on some path, by another
+			// acquisition in the same function splits the operation in two
+			if from, ok := fl.At(call); ok {
+				for _, n := range fl.reachableFrom(from) {
+					if isAcquire(n) {
+						bad = p.Position(call.Pos())
+					}
 				}
 			}
 			return true
 		})
-		R.Check(bad == "", "L4", f.Name, p.Position(f.Pos()), "mutex released by defer only", fmt.Sprintf("%s unlocks explicitly at %s and goes on: what it read before the unlock can be stale when it acts on it (lost wake-up window, nil link after a concurrent Remove)", f.Name, bad))
+		R.Check(bad == "", "L4", f.Name, p.Position(f.Pos()), "one critical section (no unlock that is followed by a re-lock)", fmt.Sprintf("%s unlocks at %s and locks again later: what it read before the unlock can be stale when it acts on it (lost wake-up window, nil link after a concurrent Remove)", f.Name, bad))
 	}
 }
 
@@ -246,7 +275,7 @@ func ruleBroker(c *Ctx) {
 			// error from Receive ends the worker
 			errRet := false
 			walkNoLit(worker.Body, func(x ast.Node) bool {
-				if ifs, isIf := x.(*ast.IfStmt); isIf && normGuard(exprStr(ifs.Cond)) == "err!=nil" && containsReturn(ifs.Body) {
+				if ifs, isIf := x.(*ast.IfStmt); isIf && errNilCmp(info, ifs.Cond, token.NEQ) && containsReturn(ifs.Body) {
 					errRet = true
 				}
 				return true
